@@ -259,71 +259,86 @@ class Agg:
 
     def __init__(self, net, raises):
         self.net, self.raises = net, raises
+        self.msgs_name = None
         self.loops = []  # per executed loop: dict(seq, report(seg, i), some, witness (seg index, w))
         self.raised_in = None
 
 
 def _mutated_names(body):
-    out = set()
+    """(names of lists the body appends to, names of dicts the body writes entries of)"""
+    apps, subs = set(), set()
     for st in body:
         for n in ast.walk(st):
             if isinstance(n, ast.Call) and isinstance(n.func, ast.Attribute) and n.func.attr == "append" and isinstance(n.func.value, ast.Name):
-                out.add(n.func.value.id)
+                apps.add(n.func.value.id)
             if isinstance(n, ast.Assign):
                 for t in n.targets:
                     if isinstance(t, ast.Subscript) and isinstance(t.value, ast.Name):
-                        out.add(t.value.id)
-    return out
+                        subs.add(t.value.id)
+    return apps, subs
 
 
 def generator_rule(agg):
-    """the nested generator: per node, slot k yields iff the body at (node data, entry k) yields"""
+    """the nested generator: one pass of its (outer) loop is summarised at a generic node index - all
+    paths, each with the list of values it yields; slot k of the node yields iff some path yields
+    more than k values, and then the k-th value of that path"""
 
-    def rule(interp, node, prod, env):
+    def rule(interp, node, it, env):
         from pyvc.loops import _child_env
 
-        if not isinstance(prod, _Product):
-            raise Unsupported("generator loop over something else than product(nodes, entries)")
+        if isinstance(it, _Product):
+            seq, entries = it.seq, it.lst
+        elif isinstance(it, SSeq):
+            seq, entries = it, None
+        else:
+            raise Unsupported("generator loop over something else than the nodes (or product(nodes, entries))")
         snapshot = dict(env.vars)
         holder = env
         while holder is not None and "$yield" not in holder.vars:
             holder = holder.parent
         if holder is None:
             raise Unsupported("generator rule outside a generator")
+        if holder.vars.get("$yield"):
+            raise Unsupported("generator yields outside its loop over the nodes")
+        J = T.fresh("gen_i", I)
 
-        def slot_fn(entry):
-            J = T.fresh("gen_i", I)
+        def run_once():
+            e2 = _child_env(interp, env)
+            e2.vars.update(snapshot)
+            e2.vars["$yield"] = []
+            for entry in (entries if entries is not None else [None]):
+                interp.assign(node.target, seq.elem(J) if entries is None else (seq.elem(J), entry), e2)
+                try:
+                    interp.exec_block(node.body, e2)
+                except ContinueEx:
+                    pass
+                except BreakEx:
+                    raise Unsupported("`break` in the generator")
+            return e2.vars["$yield"]
 
-            def run_once():
-                e2 = _child_env(interp, env)
-                e2.vars.update(snapshot)
-                e2.vars["$yield"] = []
-                interp.assign(node.target, (prod.seq.elem(J), entry), e2)
-                interp.exec_block(node.body, e2)
-                return e2.vars["$yield"]
+        paths = summarise(run_once)
+        for p in paths:
+            if p.kind != "ok":
+                raise Unsupported("generator body raises")
+            if not all(isinstance(v, Slot) for v in p.value):
+                raise Unsupported("generator yields something else than attachment objects")
+        K = max([len(p.value) for p in paths], default=0)
 
-            paths = summarise(run_once)
-            guard, item = [], None
-            for p in paths:
-                if p.kind != "ok":
-                    raise Unsupported("generator body raises")
-                if len(p.value) > 1:
-                    raise Unsupported("several yields for one (node, entry)")
-                if p.value:
-                    guard.append(p.cond)
-                    if not isinstance(p.value[0], Slot) or (item is not None and item.term is not p.value[0].term):
-                        raise Unsupported("generator yields something else than one attachment object")
-                    item = p.value[0]
-            gJ = T.or_(*guard) if guard else T.FALSE
+        def slot_fn(k):
+            mine = [p for p in paths if len(p.value) > k]
+            gJ = T.or_(*[p.cond for p in mine]) if mine else T.FALSE
+            tJ = None
+            for p in reversed(mine):
+                tJ = p.value[k].term if tJ is None else T.ite(p.cond, p.value[k].term, tJ)
 
             def at(i):
-                if item is None:
+                if tJ is None:
                     return T.FALSE, Slot(T.fresh("nothing", R))
-                return T.substitute(gJ, {J: i}), Slot(T.substitute(item.term, {J: i}))
+                return T.substitute(gJ, {J: i}), Slot(T.substitute(tJ, {J: i}))
 
             return at
 
-        holder.vars["$yield_value"] = SegSeq([Segment("attachments", prod.seq.n, [slot_fn(e) for e in prod.lst])], "generator")
+        holder.vars["$yield_value"] = SegSeq([Segment("attachments", seq.n, [slot_fn(k) for k in range(K)])], "generator")
 
     return rule
 
@@ -337,16 +352,21 @@ def agg_rule(agg):
             seq = SegSeq([Segment(seq.desc, seq.n, [lambda i, s=seq: (T.TRUE, s.elem(i))])], seq.desc)
         if not isinstance(seq, SegSeq):
             raise Unsupported("is_valid loop over an unexpected iterable")
-        names = _mutated_names(node.body)
-        if not names <= {"msgs", "count"}:
-            raise Unsupported(f"loop body mutates {sorted(names)}")
+        apps, subs = _mutated_names(node.body)
+        if len(apps) != 1 or len(subs) > 1:
+            raise Unsupported(f"loop body appends to {sorted(apps)} and writes entries of {sorted(subs)}: expected one message list and at most one counter dict")
+        MSGS = next(iter(apps))
+        COUNT = next(iter(subs)) if subs else None
+        if agg.msgs_name not in (None, MSGS):
+            raise Unsupported("the loops append to different lists")
+        agg.msgs_name = MSGS
         snapshot = dict(env.vars)
-        msgs0 = interp.lookup("msgs", env)
+        msgs0 = interp.lookup(MSGS, env)
         if isinstance(msgs0, list):
             if msgs0:
                 raise Unsupported("msgs not empty before the first loop")
             msgs0 = AbsMsgs(T.FALSE)
-        uses_count = "count" in names
+        uses_count = COUNT is not None
         segs = seq.segments
 
         # occurrences of object o in all slots before slot (s, i, k)
@@ -387,10 +407,10 @@ def agg_rule(agg):
                     e2 = _child_env(interp, env)
                     e2.vars.update(snapshot)
                     rm = RecMsgs()
-                    e2.vars["msgs"] = rm
+                    e2.vars[MSGS] = rm
                     rc = RecCount(before(s, i, k)) if uses_count else None
                     if rc is not None:
-                        e2.vars["count"] = rc
+                        e2.vars[COUNT] = rc
                     interp.assign(node.target, item, e2)
                     err = None
                     try:
@@ -465,9 +485,9 @@ def agg_rule(agg):
         new = AbsMsgs(nonempty)
         # rebind msgs where it lives
         e = env
-        while e is not None and "msgs" not in e.vars:
+        while e is not None and MSGS not in e.vars:
             e = e.parent
-        e.vars["msgs"] = new
+        e.vars[MSGS] = new
 
     return rule
 
